@@ -19,6 +19,7 @@ import (
 	"io"
 	"math/big"
 	"net"
+	"regexp"
 	"sort"
 	"strings"
 	"sync"
@@ -52,6 +53,7 @@ const (
 	CKR_USER_NOT_LOGGED_IN        = 0x101
 	CKR_BUFFER_TOO_SMALL          = 0x150
 	CKR_CRYPTOKI_ALREADY_INIT     = 0x191
+	CKR_TEMPLATE_INCONSISTENT     = 0xD1
 
 	CKA_CLASS           = 0x0
 	CKA_TOKEN           = 0x1
@@ -103,7 +105,7 @@ var rvNames = map[uint64]string{CKR_OK: "OK", CKR_SLOT_ID_INVALID: "SLOT_ID_INVA
 	CKR_MECHANISM_PARAM_INVALID: "MECHANISM_PARAM_INVALID", CKR_OBJECT_HANDLE_INVALID: "OBJECT_HANDLE_INVALID", CKR_OPERATION_ACTIVE: "OPERATION_ACTIVE",
 	CKR_OPERATION_NOT_INITIALIZED: "OPERATION_NOT_INITIALIZED", CKR_PIN_INCORRECT: "PIN_INCORRECT", CKR_PIN_LOCKED: "PIN_LOCKED", CKR_SESSION_HANDLE_INVALID: "SESSION_HANDLE_INVALID",
 	CKR_TOKEN_NOT_PRESENT: "TOKEN_NOT_PRESENT", CKR_TOKEN_NOT_RECOGNIZED: "TOKEN_NOT_RECOGNIZED", CKR_USER_ALREADY_LOGGED_IN: "USER_ALREADY_LOGGED_IN",
-	CKR_USER_NOT_LOGGED_IN: "USER_NOT_LOGGED_IN", CKR_BUFFER_TOO_SMALL: "BUFFER_TOO_SMALL", CKR_CRYPTOKI_ALREADY_INIT: "CRYPTOKI_ALREADY_INITIALIZED"}
+	CKR_USER_NOT_LOGGED_IN: "USER_NOT_LOGGED_IN", CKR_BUFFER_TOO_SMALL: "BUFFER_TOO_SMALL", CKR_CRYPTOKI_ALREADY_INIT: "CRYPTOKI_ALREADY_INITIALIZED", CKR_TEMPLATE_INCONSISTENT: "TEMPLATE_INCONSISTENT"}
 
 // RVByName: the inverse, for knobs
 func RVByName(n string) uint64 {
@@ -416,6 +418,9 @@ func attrName(t uint64) string {
 
 var classNames = map[uint64]string{CKO_CERTIFICATE: "cert", CKO_PUBLIC_KEY: "pub", CKO_PRIVATE_KEY: "priv"}
 
+var chainLabel = regexp.MustCompile(`_chain_[0-9a-f]{16}$`)
+
+// describeTemplate: what a search or creation template selects - class, label, id (other attributes are not printed)
 func describeTemplate(t []attr) string {
 	var parts []string
 	for _, a := range t {
@@ -425,11 +430,14 @@ func describeTemplate(t []attr) string {
 				parts = append(parts, "class="+classNames[binary.LittleEndian.Uint64(a.val)])
 			}
 		case CKA_LABEL:
-			parts = append(parts, "label="+string(a.val))
+			// certificate labels carry a fingerprint of the certificate
+			parts = append(parts, "label="+chainLabel.ReplaceAllString(string(a.val), "_chain_FP"))
 		case CKA_ID:
-			parts = append(parts, fmt.Sprintf("id=%x", a.val))
-		default:
-			parts = append(parts, attrName(a.typ))
+			if len(a.val) == 20 {
+				parts = append(parts, "id=random") // relic draws 20 random bytes for new objects
+			} else {
+				parts = append(parts, fmt.Sprintf("id=%x", a.val))
+			}
 		}
 	}
 	return strings.Join(parts, " ")
@@ -452,7 +460,7 @@ func (m *Model) objLabel(o *Object) string {
 	if c := o.Attrs[CKA_CLASS]; len(c) == 8 {
 		cls = classNames[binary.LittleEndian.Uint64(c)] + ":"
 	}
-	return cls + string(o.Attrs[CKA_LABEL])
+	return cls + chainLabel.ReplaceAllString(string(o.Attrs[CKA_LABEL]), "_chain_FP")
 }
 
 func (m *Model) slot(id uint64) *Slot {
@@ -954,7 +962,7 @@ func (m *Model) dispatch(fn uint64, r *rd, w *wr) uint64 {
 			}
 			m.nextObj++
 			oh = m.nextObj
-			m.objects = append(m.objects, &Object{Handle: oh, Attrs: attrs, Slot: s.slot})
+			m.objects = append(m.objects, &Object{Handle: oh, Attrs: attrs, Slot: s.slot, Signer: importedSigner(attrs)})
 		}
 		m.log("CreateObject", describeTemplate(sorted(t)), rv)
 		w.u64(oh)
@@ -1090,4 +1098,50 @@ func (m *Model) doSign(op *signOp, data []byte) ([]byte, error) {
 		return out, nil
 	}
 	return nil, fmt.Errorf("mechanism")
+}
+
+const (
+	CKA_PRIME_1 = 0x124
+	CKA_PRIME_2 = 0x125
+)
+
+// importedSigner: the private key behind an object created from its components (C_CreateObject of a private key)
+func importedSigner(a map[uint64][]byte) crypto.Signer {
+	if c := a[CKA_CLASS]; len(c) != 8 || binary.LittleEndian.Uint64(c) != CKO_PRIVATE_KEY {
+		return nil
+	}
+	if kt := a[CKA_KEY_TYPE]; len(kt) == 8 {
+		switch binary.LittleEndian.Uint64(kt) {
+		case CKK_RSA:
+			k := &rsa.PrivateKey{PublicKey: rsa.PublicKey{N: new(big.Int).SetBytes(a[CKA_MODULUS]), E: int(new(big.Int).SetBytes(a[CKA_PUBLIC_EXPONENT]).Int64())},
+				D: new(big.Int).SetBytes(a[CKA_PRIVATE_EXPONENT]), Primes: []*big.Int{new(big.Int).SetBytes(a[CKA_PRIME_1]), new(big.Int).SetBytes(a[CKA_PRIME_2])}}
+			if k.Validate() != nil {
+				return nil
+			}
+			k.Precompute()
+			return k
+		case CKK_EC:
+			var oid asn1.ObjectIdentifier
+			if _, err := asn1.Unmarshal(a[CKA_EC_PARAMS], &oid); err != nil {
+				return nil
+			}
+			var curve elliptic.Curve
+			switch oid.String() {
+			case "1.2.840.10045.3.1.7":
+				curve = elliptic.P256()
+			case "1.3.132.0.34":
+				curve = elliptic.P384()
+			case "1.3.132.0.35":
+				curve = elliptic.P521()
+			default:
+				return nil
+			}
+			d := new(big.Int).SetBytes(a[CKA_VALUE])
+			k := &ecdsa.PrivateKey{D: d}
+			k.Curve = curve
+			k.X, k.Y = curve.ScalarBaseMult(d.Bytes())
+			return k
+		}
+	}
+	return nil
 }
